@@ -358,6 +358,7 @@ def keepalive_case(run):
     T = int(run["params"]["timeout_ms"]) * 1000000
     silent = run["params"]["kind"] == "silent"
     kevs, aevs = [], ["ConnUp"]
+    armed = [int(e["a"][0]) for e in run["events"] if e["c"] == cconn and e["p"] == "deadline.reset" and e.get("a")]
     last_t = None
     started = False
     for e in run["events"]:
@@ -388,7 +389,8 @@ def keepalive_case(run):
             aevs.append("ConnUp")
         elif p == "reader.err":
             break                     # the first reader error ends the timed trace of this connection
-    return "{| kc_T := %d; kc_events := [%s]; kc_expect_fired := %s; kc_aevents := [%s] |}" % (T, "; ".join(kevs), "true" if silent else "false", "; ".join(aevs))
+    return "{| kc_T := %d; kc_events := [%s]; kc_expect_fired := %s; kc_aevents := [%s]; kc_armed := [%s] |}" % (
+        T, "; ".join(kevs), "true" if silent else "false", "; ".join(aevs), "; ".join(str(x) for x in armed))
 
 
 KHEADER = "From Coq Require Import List ZArith NArith Bool.\nImport ListNotations.\nFrom JR Require Import Keepalive AuthCases KeepaliveCases.\nOpen Scope Z_scope.\n"
